@@ -428,6 +428,10 @@ impl CommitPipeline {
 			let count = batch.count() as u64;
 			let stamp = allocated_seq + count - 1;
 			self.oracle.rollback(batch.entries.iter().map(|e| e.key.as_slice()), stamp);
+			#[cfg(surrealkv_verif)]
+			crate::verif::ev(crate::verif::VerifEvent::RolledBack {
+				seq: allocated_seq,
+			});
 
 			// Order matters: complete with Err FIRST, then mark_applied below.
 			// Otherwise a concurrent publish() could dequeue the (already
